@@ -34,6 +34,20 @@ use vh::{engine_util::*, *};
 struct Maps {
     instruments: Vec<usize>,
     assets: Vec<usize>,
+    /// exchange LABEL of every instrument label / asset label (`init n x …`; all 0 for `init n`)
+    ins_ex: Vec<usize>,
+    asset_ex: Vec<usize>,
+    /// exchange label -> position in the engine's exchange index
+    ex_index: Vec<usize>,
+}
+
+impl Maps {
+    fn ins_exchange(&self, i: usize) -> ExchangeIndex {
+        ExchangeIndex(self.ex_index[self.ins_ex[i]])
+    }
+    fn asset_exchange(&self, a: usize) -> ExchangeIndex {
+        ExchangeIndex(self.ex_index[self.asset_ex[a]])
+    }
 }
 
 fn observe(engine: &TestEngine, maps: &Maps, lines: &mut Vec<String>) {
@@ -104,10 +118,10 @@ fn observe(engine: &TestEngine, maps: &Maps, lines: &mut Vec<String>) {
 }
 
 /// an order report for `(instrument idx, client order id cid)`: quantity 10, price 100
-fn order_report(idx: InstrumentIndex, cid: &str, state: OrderState) -> Order {
+fn order_report(ex: ExchangeIndex, idx: InstrumentIndex, cid: &str, state: OrderState) -> Order {
     Order {
         key: OrderKey {
-            exchange: ExchangeIndex(0),
+            exchange: ex,
             instrument: idx,
             strategy: StrategyId::new("verif"),
             cid: ClientOrderId::new(cid),
@@ -157,12 +171,93 @@ fn terminal_state(kind: &str, t: &str) -> OrderState {
 fn run() {
     run_cases(|case, lines| {
         let mut built: Option<Built> = None;
-        let mut maps = Maps { instruments: vec![], assets: vec![] };
+        let mut maps = Maps { instruments: vec![], assets: vec![], ins_ex: vec![], asset_ex: vec![], ex_index: vec![] };
         let mut n = 0usize;
+        // number of asset labels: n + 1 for `init n`, n + x for `init n x …`
+        let mut na = 0usize;
         for (op_index, op) in case.ops.iter().enumerate() {
             lines.push("@".into());
+            if op[0] == "init" && op.len() > 2 {
+                // CONFIGURATION family: `init n x (B a total free)*` - the n instruments are spread over x
+                // exchanges (instrument label i = a<i>/usdt on exchange label i % x, 1 <= x <= min(n, 5), so
+                // every exchange trades something and `usdt` exists once PER exchange); asset labels:
+                // 0..n-1 = a<i> (on exchange i % x), n + e = usdt on exchange label e; every `B a total free`
+                // is an INITIAL balance given to `EngineStateBuilder::balances` (stamped by the builder with
+                // `time_engine_start` = t0, i.e. exchange time 0): a message delivered at time 0
+                let nn: usize = op[1].parse().unwrap();
+                let x: usize = op[2].parse().unwrap();
+                let items: Vec<&[String]> = op[3..].chunks(4).collect();
+                let ok = (1..=EXCHANGES.len()).contains(&x)
+                    && x <= nn
+                    && items.iter().all(|c| c.len() == 4 && c[0] == "B" && c[1].parse::<usize>().is_ok_and(|a| a < nn + x))
+                    && {
+                        let mut seen: Vec<&str> = items.iter().map(|c| c[1].as_str()).collect();
+                        seen.sort();
+                        seen.windows(2).all(|w| w[0] != w[1])
+                    };
+                if !ok {
+                    lines.push("bad-op".into());
+                    continue;
+                }
+                n = nn;
+                na = n + x;
+                let names: Vec<String> = (0..n).map(|i| format!("a{i}")).collect();
+                let defs: Vec<(usize, &str, &str)> =
+                    names.iter().enumerate().map(|(i, b)| (i % x, b.as_str(), "usdt")).collect();
+                let instruments = build_instruments(&defs);
+                let mut b = build_engine(&instruments, &[], TradingState::Disabled);
+                maps.ins_ex = (0..n).map(|i| i % x).collect();
+                maps.asset_ex = (0..na).map(|a| if a < n { a % x } else { a - n }).collect();
+                maps.ex_index = (0..x)
+                    .map(|e| instruments.exchanges().iter().position(|k| k.value == EXCHANGES[e]).unwrap())
+                    .collect();
+                let asset_name = |a: usize| if a < n { format!("a{a}") } else { "usdt".to_string() };
+                // the starting state, assembled as a user does: builder + initial balances
+                use barter::engine::state::{
+                    EngineState, global::DefaultGlobalData, instrument::data::DefaultInstrumentMarketData,
+                };
+                use barter_instrument::asset::name::AssetNameInternal;
+                let state: State = EngineState::builder(
+                    &instruments,
+                    DefaultGlobalData::default(),
+                    DefaultInstrumentMarketData::default,
+                )
+                .time_engine_start(t0())
+                .trading_state(TradingState::Disabled)
+                .balances(items.iter().map(|c| {
+                    let a: usize = c[1].parse().unwrap();
+                    (
+                        EXCHANGES[maps.asset_ex[a]],
+                        AssetNameInternal::new(asset_name(a)),
+                        Balance::new(parse_dec(&c[2]), parse_dec(&c[3])),
+                    )
+                }))
+                .build();
+                b.engine.state = state;
+                maps.instruments = (0..n)
+                    .map(|i| {
+                        b.engine.state.instruments.0.values()
+                            .position(|s| s.instrument.name_internal.name().as_str() == format!("a{i}_usdt_x{}", i % x))
+                            .unwrap()
+                    })
+                    .collect();
+                maps.assets = (0..na)
+                    .map(|a| {
+                        b.engine.state.assets.0.keys()
+                            .position(|k| k.exchange == EXCHANGES[maps.asset_ex[a]] && k.asset.name().as_str() == asset_name(a))
+                            .unwrap()
+                    })
+                    .collect();
+                built = Some(b);
+                observe(&built.as_ref().unwrap().engine, &maps, lines);
+                continue;
+            }
             if op[0] == "init" {
                 n = op[1].parse().unwrap();
+                na = n + 1;
+                maps.ins_ex = vec![0; n];
+                maps.asset_ex = vec![0; n + 1];
+                maps.ex_index = vec![0];
                 let names: Vec<String> = (0..n).map(|i| format!("a{i}")).collect();
                 let defs: Vec<(usize, &str, &str)> =
                     names.iter().map(|b| (0usize, b.as_str(), "usdt")).collect();
@@ -191,7 +286,7 @@ fn run() {
             let engine = &mut built.as_mut().expect("init first").engine;
             let bal_item = |t: &[String]| -> Option<AssetBalance<AssetIndex>> {
                 let a: usize = t[0].parse().unwrap();
-                if a > n {
+                if a >= na {
                     return None;
                 }
                 Some(AssetBalance {
@@ -204,7 +299,7 @@ fn run() {
                 "bal" => {
                     let Some(b) = bal_item(&op[1..5]) else { lines.push("panic".into()); continue };
                     engine.state.update_from_account(&AccountEvent {
-                        exchange: ExchangeIndex(0),
+                        exchange: maps.asset_exchange(op[1].parse().unwrap()),
                         kind: AccountEventKind::BalanceSnapshot(Snapshot(b)),
                     });
                 }
@@ -214,10 +309,12 @@ fn run() {
                         lines.push("panic".into());
                         continue;
                     }
+                    // the event is attributed to the exchange of the first item it carries
+                    let ex = op.get(1).map(|a| maps.asset_exchange(a.parse().unwrap())).unwrap_or(ExchangeIndex(0));
                     engine.state.update_from_account(&AccountEvent {
-                        exchange: ExchangeIndex(0),
+                        exchange: ex,
                         kind: AccountEventKind::Snapshot(AccountSnapshot {
-                            exchange: ExchangeIndex(0),
+                            exchange: ex,
                             balances: items.into_iter().map(|x| x.unwrap()).collect(),
                             instruments: vec![],
                         }),
@@ -229,12 +326,17 @@ fn run() {
                     let mut balances = vec![];
                     let mut instruments = vec![];
                     let mut bad = false;
+                    // the event is attributed to the exchange of the first item it carries
+                    let mut ex: Option<ExchangeIndex> = None;
                     let mut k = 1;
                     while k < op.len() {
                         match op[k].as_str() {
                             "B" => {
                                 match bal_item(&op[k + 1..k + 5]) {
-                                    Some(b) => balances.push(b),
+                                    Some(b) => {
+                                        ex.get_or_insert(maps.asset_exchange(op[k + 1].parse().unwrap()));
+                                        balances.push(b)
+                                    }
                                     None => bad = true,
                                 }
                                 k += 5;
@@ -245,6 +347,7 @@ fn run() {
                                     bad = true;
                                 } else {
                                     let idx = InstrumentIndex(maps.instruments[i]);
+                                    ex.get_or_insert(maps.ins_exchange(i));
                                     let state = if op[k] == "O" {
                                         open_state(&op[k + 3], &op[k + 4], &op[k + 5])
                                     } else {
@@ -252,7 +355,7 @@ fn run() {
                                     };
                                     instruments.push(InstrumentAccountSnapshot {
                                         instrument: idx,
-                                        orders: vec![order_report(idx, &op[k + 2], state)],
+                                        orders: vec![order_report(maps.ins_exchange(i), idx, &op[k + 2], state)],
                                     });
                                 }
                                 k += if op[k] == "O" { 6 } else { 5 };
@@ -264,10 +367,11 @@ fn run() {
                         lines.push("panic".into());
                         continue;
                     }
+                    let ex = ex.unwrap_or(ExchangeIndex(0));
                     engine.state.update_from_account(&AccountEvent {
-                        exchange: ExchangeIndex(0),
+                        exchange: ex,
                         kind: AccountEventKind::Snapshot(AccountSnapshot {
-                            exchange: ExchangeIndex(0),
+                            exchange: ex,
                             balances,
                             instruments,
                         }),
@@ -280,13 +384,15 @@ fn run() {
                         continue;
                     }
                     let idx = InstrumentIndex(maps.instruments[i]);
+                    let ex = maps.ins_exchange(i);
+                    let ex_id = EXCHANGES[maps.ins_ex[i]];
                     match op[0].as_str() {
                         "cancel" => {
                             use barter::engine::state::order::in_flight_recorder::InFlightRequestRecorder;
                             use barter_execution::order::request::{OrderRequestCancel, RequestCancel};
                             engine.state.record_in_flight_cancel(&OrderRequestCancel {
                                 key: OrderKey {
-                                    exchange: ExchangeIndex(0),
+                                    exchange: ex,
                                     instrument: idx,
                                     strategy: StrategyId::new("verif"),
                                     cid: ClientOrderId::new(op[2].as_str()),
@@ -295,9 +401,9 @@ fn run() {
                             });
                         }
                         "ordx" => {
-                            let order = order_report(idx, &op[2], terminal_state(&op[3], &op[4]));
+                            let order = order_report(ex, idx, &op[2], terminal_state(&op[3], &op[4]));
                             engine.state.update_from_account(&AccountEvent {
-                                exchange: ExchangeIndex(0),
+                                exchange: ex,
                                 kind: AccountEventKind::OrderSnapshot(Snapshot(order)),
                             });
                         }
@@ -308,7 +414,7 @@ fn run() {
                                 // the local receive time is unrelated to the exchange time (a late message
                                 // is RECEIVED late): always later than every exchange timestamp of the case
                                 time_received: time_ms(10_000 + op_index as i64),
-                                exchange: EXCHANGES[0],
+                                exchange: ex_id,
                                 instrument: idx,
                                 // optional: `B|S amount` (default: a buy of 1)
                                 kind: DataKind::Trade(PublicTrade {
@@ -359,7 +465,7 @@ fn run() {
                             engine.state.update_from_market(&MarketEvent {
                                 time_exchange: t,
                                 time_received: time_ms(10_000 + op_index as i64),
-                                exchange: EXCHANGES[0],
+                                exchange: ex_id,
                                 instrument: idx,
                                 kind,
                             });
@@ -370,7 +476,7 @@ fn run() {
                             engine.state.update_from_market(&MarketEvent {
                                 time_exchange: te,
                                 time_received: time_ms(10_000 + op_index as i64),
-                                exchange: EXCHANGES[0],
+                                exchange: ex_id,
                                 instrument: idx,
                                 kind: DataKind::OrderBookL1(OrderBookL1 {
                                     last_update_time: tl,
@@ -390,7 +496,7 @@ fn run() {
                             engine.state.update_from_market(&MarketEvent {
                                 time_exchange: te,
                                 time_received: time_ms(10_000 + op_index as i64),
-                                exchange: EXCHANGES[0],
+                                exchange: ex_id,
                                 instrument: idx,
                                 kind: DataKind::OrderBookL1(OrderBookL1 {
                                     last_update_time: tl,
@@ -401,9 +507,9 @@ fn run() {
                             });
                         }
                         _ => {
-                            let order = order_report(idx, &op[2], open_state(&op[3], &op[4], &op[5]));
+                            let order = order_report(ex, idx, &op[2], open_state(&op[3], &op[4], &op[5]));
                             engine.state.update_from_account(&AccountEvent {
-                                exchange: ExchangeIndex(0),
+                                exchange: ex,
                                 kind: AccountEventKind::OrderSnapshot(Snapshot(order)),
                             });
                         }
@@ -715,6 +821,94 @@ fn gen_dom_case(rng: &mut Rng, out: &mut Out) {
     }
 }
 
+/// CONFIGURATION family (separately seeded, ids cfg<n>; everything above stays as it is): the engine is
+/// ASSEMBLED differently before the messages run - the instruments are spread over 1-3 exchanges (so `usdt`
+/// exists once per exchange, an instrument's global index differs from its position on its exchange, and
+/// account / market events carry other exchanges than the first one), and the starting state carries INITIAL
+/// balances given to `EngineStateBuilder::balances` (stamped with the engine start time = exchange time 0) for
+/// some assets and not for others. Then the usual pool of timestamped messages (times -2..3, so messages older
+/// than, equal to and newer than the initial balances) delivered as a permutation with repetition.
+fn gen_cfg_case(rng: &mut Rng, out: &mut Out) {
+    let n = rng.range(1, 4) as usize;
+    let x = rng.range(1, (n as i64).min(3)) as usize;
+    let na = n + x;
+    let mut init = format!("init {n} {x}");
+    let mut uid = 0i64;
+    for a in 0..na {
+        // usdt balances are seeded more often than base balances (the usual back-test set-up)
+        if rng.chance(if a >= n { 70 } else { 35 }) {
+            uid += 1;
+            let (tot, free) = *rng.pick(&[("1000", "1000"), ("500", "250"), ("0", "0"), ("7.5", "7.5")]);
+            if rng.chance(50) {
+                init += &format!(" B {a} {tot} {free}");
+            } else {
+                init += &format!(" B {a} {} {}", 900 + uid, 800 + uid);
+            }
+        }
+    }
+    out.line(init);
+    let times: &[i64] = *rng.pick(&[&[-2i64, -1, 0, 1][..], &[0, 1, 2][..], &[1, 2, 3][..], &[-1, 0, 0, 3][..]]);
+    let mut pool: Vec<String> = vec![];
+    let npool = rng.range(2, 9);
+    for _ in 0..npool {
+        uid += 1;
+        let t = *rng.pick(times);
+        match rng.below(100) {
+            0..=39 => {
+                let a = rng.below(na as u64);
+                pool.push(format!("bal {a} {t} {} {}", 100 + uid, 50 + uid));
+            }
+            40..=54 => {
+                // a full snapshot of ONE exchange: balances of assets of the same exchange
+                let e = rng.below(x as u64) as usize;
+                let of_e: Vec<usize> = (0..na).filter(|a| if *a < n { a % x == e } else { a - n == e }).collect();
+                let k = rng.range(0, 3);
+                let mut s = String::from("full");
+                for _ in 0..k {
+                    uid += 1;
+                    let t = *rng.pick(times);
+                    s += &format!(" {} {t} {} {}", rng.pick(&of_e), 100 + uid, 50 + uid);
+                }
+                pool.push(s);
+            }
+            55..=64 => {
+                let i = rng.below(n as u64);
+                pool.push(format!("trade {i} {t} {}.5", 100 + uid));
+            }
+            65..=76 => {
+                let i = rng.below(n as u64);
+                pool.push(format!("l1 {i} {t} {t} {} 1 {} 2", 100 + uid, 200 + uid));
+            }
+            77..=86 => {
+                let i = rng.below(n as u64);
+                let c = rng.range(1, 2);
+                pool.push(format!("ord {i} {c} {uid} {t} {}", rng.pick(&[0, 5])));
+            }
+            87..=89 => {
+                let i = rng.below(n as u64);
+                let c = rng.range(1, 2);
+                pool.push(format!("ordx {i} {c} {} {t}", rng.pick(&["Cancelled", "Filled", "Expired", "Failed"])));
+            }
+            90..=96 => {
+                // one exchange's account snapshot: a balance and an open report of an instrument of the same exchange
+                let i = rng.below(n as u64) as usize;
+                let a = if rng.chance(50) { i } else { n + i % x };
+                let c = rng.range(1, 2);
+                let t2 = *rng.pick(times);
+                pool.push(format!("acct B {a} {t} {} {} O {i} {c} {uid} {t2} 0", 100 + uid, 50 + uid));
+            }
+            _ => {
+                let i = rng.below(n as u64);
+                pool.push(format!("cancel {i} {}", rng.range(1, 2)));
+            }
+        }
+    }
+    let deliveries = rng.range(npool, npool * 2 + 2);
+    for _ in 0..deliveries {
+        out.line(rng.pick(&pool).clone());
+    }
+}
+
 fn generate(seed: u64, n_cases: usize, tier: &str) {
     let mut out = Out::new();
     let mut rng = Rng::new(seed);
@@ -763,6 +957,13 @@ fn generate(seed: u64, n_cases: usize, tier: &str) {
         id += 1;
         out.case(format!("d{id}"));
         gen_dom_case(&mut drng, &mut out);
+    }
+    // configuration family: a sixth as many cases again (+2), from its own PRNG stream
+    let mut crng = Rng::new(seed ^ 0xCF60_0009_5EED);
+    for _ in 0..n_cases / 6 + 2 {
+        id += 1;
+        out.case(format!("cfg{id}"));
+        gen_cfg_case(&mut crng, &mut out);
     }
     out.flush();
 }
